@@ -115,9 +115,9 @@ func lcConfig(which string, async bool, theta, upper log.Level) sys.Cfg {
 	case "N": // appenders only: no logger section at all
 		cfg.AddRec("recN1")
 	case "A":
-		add("ha", "aa_x", lcSinks["A.ha"])
+		add("ha", "aa_*", lcSinks["A.ha"]) // T1 = aa_x is served through a wildcard here ...
 	case "B":
-		add("ha", "bb_*", lcSinks["B.ha"])
+		add("ha", "bb_*, aa_*", lcSinks["B.ha"]) // ... which B keeps, next to a literal entry for T1 on another logger
 		add("hb", "aa_x", lcSinks["B.hb"])
 		add("root", "\x00", lcSinks["B.root"])
 	}
